@@ -17,18 +17,27 @@ class KindGen(G.GrammarGen):
     def grammar(self):
         r = self.rng
         for _ in range(300):
-            n = r.randrange(3, 7)
-            names = ["M", "A", "B", "C", "D", "F"][:n]
+            n = r.randrange(3, 9)
+            names = ["M", "A", "B", "C", "D", "F", "G", "H"][:n]
             kinds = {}
             for i, nm in enumerate(names):
                 kinds[nm] = r.choice(["common", "abstract", "match"]) if i else r.choice(["abstract", "common"])
-            kinds[names[-1]] = r.choice(["common", "match"])
+            # the last rule is usually a common or match rule; sometimes abstract with references back up only
+            kinds[names[-1]] = r.choice(["common", "match", "common", "match", "abstract"])
             rules = []
             for i, nm in enumerate(names):
                 below = names[i + 1:]
                 k = kinds[nm]
                 if k == "abstract" and not below:
-                    k = "common"
+                    # only references back up: to earlier rules (cycles that depend on other cycles)
+                    ups = r.sample(names[1:i], min(len(names[1:i]), r.randrange(1, 3))) if i > 1 else []
+                    if not ups:
+                        k = "common"
+                    else:
+                        alts = [G.Ref(u) if r.random() < 0.5 else G.Seq([G.Str("["), G.Ref(u), G.Str("]")]) for u in ups]
+                        alts.append(G.Str("none"))
+                        rules.append(G.RuleD(nm, G.Alt(alts)))
+                        continue
                 if k == "common":
                     parts = [G.Str(r.choice(["a", "b", "k"])), G.Asg("v", "=", G.Ref(r.choice(["INT", "ID"])))]
                     if below and r.random() < 0.6:
@@ -55,11 +64,22 @@ class KindGen(G.GrammarGen):
                             alts.append(G.Seq([G.Ref(b), G.Ref(other)]))
                     if r.random() < 0.35:
                         alts.insert(r.randrange(len(alts) + 1), r.choice([G.Str("z"), G.Ref("ID"), G.Seq([G.Str("w"), G.Ref("INT")])]))
+                    if r.random() < 0.25:
+                        # an alternative of base-type matches only: yields the concatenated matched text
+                        alts.insert(r.randrange(len(alts) + 1),
+                                    G.Seq([G.Ref(r.choice(["INT", "STRING"])), G.Ref(r.choice(["BOOL", "INT", "STRING"]))]))
                     if r.random() < 0.4:   # a cycle of abstract rules: back to this or an earlier rule, guarded by a terminal
                         alts.insert(r.randrange(len(alts) + 1),
                                     G.Seq([G.Str("("), G.Ref(r.choice(names[:i + 1])), G.Str(")")]))
+                    if i > 1 and r.random() < 0.25:   # an unguarded reference to an earlier rule (not the root)
+                        alts.append(G.Ref(r.choice(names[1:i])))
                     body = G.Alt(alts) if len(alts) > 1 else alts[0]
                 rules.append(G.RuleD(nm, body))
+            if r.random() < 0.5:
+                # rule kinds do not depend on the order of definition
+                tail = rules[1:]
+                r.shuffle(tail)
+                rules = rules[:1] + tail
             g = dict(rules=rules)
             if G.well_formed(g):
                 return G.number(g)
